@@ -626,7 +626,7 @@ void read_remark_200_230_240(const char* line, Metadata& meta, std::string*& cry
 // If it's not SG, we pick the first sulfur atom in the residue.
 const Residue* complete_ssbond_atom(AtomAddress& ad, const Model& mdl) {
   ad.atom_name = "SG";
-  const_CRA cra = mdl.find_cra(ad);
+  const_CRA cra = mdl.find_cra(ad, true);
   if (cra.residue && (!cra.atom || cra.atom->element != El::S))
     if (const Atom* a = cra.residue->find_by_element(El::S)) {
       ad.atom_name = a->name;
